@@ -1,0 +1,43 @@
+//go:build verif
+
+package pipeline
+
+import "sync/atomic"
+
+// Verification-only gate and trace points (build tag `verif`). In normal builds the
+// functions of verif_off.go are used instead: empty bodies, inlined away.
+
+var verifGateFn atomic.Pointer[func(point string, a, b uint64)]
+var verifTraceFn atomic.Pointer[func(kind string, a, b uint64)]
+
+// VerifSetGate installs the function called at every gate point (nil removes it).
+// A gate may block: it is how a harness holds a goroutine inside a window.
+func VerifSetGate(f func(point string, a, b uint64)) {
+	if f == nil {
+		verifGateFn.Store(nil)
+		return
+	}
+	verifGateFn.Store(&f)
+}
+
+// VerifSetTrace installs the function called at every trace point (nil removes it).
+// Trace points are placed inside the critical section that serialises the traced step.
+func VerifSetTrace(f func(kind string, a, b uint64)) {
+	if f == nil {
+		verifTraceFn.Store(nil)
+		return
+	}
+	verifTraceFn.Store(&f)
+}
+
+func verifGate(point string, a, b uint64) {
+	if f := verifGateFn.Load(); f != nil {
+		(*f)(point, a, b)
+	}
+}
+
+func verifTrace(kind string, a, b uint64) {
+	if f := verifTraceFn.Load(); f != nil {
+		(*f)(kind, a, b)
+	}
+}
